@@ -298,4 +298,17 @@ func checkC04(run *Run, res *Result) {
 			}
 		}
 	}
+	if run.Cfg.Prop == "C04" && !run.Cfg.Faults {
+		// "written by the next save": the fault-free life scenario is also read by C05's model of explicit saves; a
+		// Commit that completes without storing a position settled before it began is reported here (the recorded
+		// C05 finding about positions advanced only by non-document events keeps its own signature and is left to C05)
+		tmp := &Result{Probes: map[string]int{}, Faults: map[string]int{}, DeathKind: res.DeathKind, FailStop: res.FailStop}
+		checkC05(run, tmp)
+		for _, v := range tmp.Violations {
+			if v.Rule == "C05/R1-unpersisted-after-successful-save" && v.Sig == "plain" {
+				res.violate("C04", "R9-next-save-did-not-write-the-tracked-position", v.N, "plain", "%s", v.Detail)
+			}
+		}
+		res.probe("next-save-judged")
+	}
 }
